@@ -69,6 +69,7 @@ def run(rep: core.Report):
     _r17e(rep)
     _r17f(rep, reg)
     _r17g(rep)
+    _r17h(rep)
 
 
 # ---------------------------------------------------------------------------
@@ -494,6 +495,136 @@ def _r17f(rep, reg):
                                      f"unpacking {m} names from the {n}-tuple (filename, …) that read_crystal_structure returns for {calc}: ValueError at run time", line=x.lineno)
 
 
+def _r17h(rep):
+    """Index-domain typing of sort_positions_by_symbols, the grouping primitive of the VASP/Elk/Fleur/ABACUS writers.
+    A sequence is typed (index domain, value domain); domains: atom, FA (species in order of first appearance),
+    AL (species in sorted order, as np.unique returns them), sym, count, grouped:<K> (atoms stably grouped by key K)."""
+    rep.rule("R17h", "stable grouping by species: the per-atom sort key is the rank of the atom's species in the species list that is returned as the header (same order domain for counts, symbols and grouping); every subscript indexes a sequence by values of its own index domain", 2)
+    rel = "phonopy/interface/vasp.py"
+    fn = core.find_def(rel, "sort_positions_by_symbols")
+    sym_param = fn.args.args[0].arg
+    env = {sym_param: ("atom", "sym", False)}
+    local_fns = {f.name: f for f in fn.body if isinstance(f, ast.FunctionDef)}
+    problems = []
+
+    def is_stable_argsort_fn(f):
+        t = core.src(f)
+        return "sorted(range(len(" in t and "__getitem__" in t
+
+    def ty(e):
+        if isinstance(e, ast.Name):
+            return env.get(e.id)
+        if isinstance(e, ast.Call):
+            f = core.src(e.func)
+            a0 = e.args[0] if e.args else None
+            if f in ("list", "np.array", "np.asarray", "tuple") and a0 is not None:
+                return ty(a0)
+            if isinstance(e.func, ast.Attribute) and e.func.attr in ("tolist", "copy", "astype"):
+                return ty(e.func.value)
+            if f == "dict.fromkeys" and a0 is not None:
+                t = ty(a0)
+                return ("FA", t[1], True) if t and t[0] == "atom" else None
+            if f in ("Counter", "collections.Counter") and a0 is not None:
+                t = ty(a0)
+                return ("map", t[1], "count") if t else None
+            if f == "np.argsort" or f.endswith(".argsort"):
+                t = ty(a0 if f == "np.argsort" else e.func.value)
+                stable = any(k.arg == "kind" and isinstance(k.value, ast.Constant) and k.value.value in ("stable", "mergesort") for k in e.keywords)
+                if t is None:
+                    return None
+                if t[:2] == ("AL", "atom1st"):
+                    return ("FA", "AL", True)  # species in order of their first atom
+                if t[2]:
+                    return (t[1], t[0], True)  # argsort of a bijection is its inverse
+                if stable and t[0] == "atom":
+                    return ("grouped:" + t[1], "atom", True)
+                return None
+            if f in local_fns and is_stable_argsort_fn(local_fns[f]) and a0 is not None:
+                t = ty(a0)
+                return ("grouped:" + t[1], "atom", True) if t and t[0] == "atom" else None
+            if f == "sorted" and a0 is not None and core.src(a0).startswith("range(len(") and any(k.arg == "key" for k in e.keywords):
+                k = [k.value for k in e.keywords if k.arg == "key"][0]
+                if isinstance(k, ast.Attribute) and k.attr == "__getitem__":
+                    t = ty(k.value)
+                    return ("grouped:" + t[1], "atom", True) if t and t[0] == "atom" else None
+            return None
+        if isinstance(e, ast.Subscript):
+            a, b = ty(e.value), ty(e.slice)
+            if a and b and a[0] != "map":
+                if b[1] != a[0]:
+                    problems.append((e, f"'{core.src(e)}': '{core.src(e.value)}' is indexed by {a[0]} but '{core.src(e.slice)}' holds {b[1]} indices"))
+                    return None
+                return (b[0], a[1], a[2] and b[2])
+            return None
+        if isinstance(e, ast.ListComp) and len(e.generators) == 1 and isinstance(e.generators[0].target, ast.Name):
+            g = e.generators[0]
+            it = ty(g.iter)
+            v = g.target.id
+            if it is None:
+                return None
+            el = e.elt
+            # M[v]
+            if isinstance(el, ast.Subscript) and core.src(el.slice) == v:
+                m = ty(el.value)
+                if m and m[0] == "map" and m[1] == it[1]:
+                    return (it[0], m[2], False)
+                return None
+            # X.index(v)
+            if isinstance(el, ast.Call) and isinstance(el.func, ast.Attribute) and el.func.attr == "index" and len(el.args) == 1 and core.src(el.args[0]) == v:
+                x = ty(el.func.value)
+                if x and x[1] == it[1] and x[2]:
+                    return (it[0], x[0], False)
+                return None
+            return None
+        if isinstance(e, ast.DictComp) and len(e.generators) == 1:
+            g = e.generators[0]
+            if isinstance(g.iter, ast.Call) and core.src(g.iter.func) == "enumerate" and isinstance(g.target, ast.Tuple) and len(g.target.elts) == 2:
+                x = ty(g.iter.args[0])
+                kname, vname = core.src(g.target.elts[0]), core.src(g.target.elts[1])
+                if x and core.src(e.key) == vname and core.src(e.value) == kname:
+                    return ("map", x[1], x[0])
+            return None
+        return None
+
+    for st in fn.body:
+        if not isinstance(st, ast.Assign):
+            continue
+        t = st.targets[0]
+        if isinstance(t, ast.Name):
+            v = ty(st.value)
+            if v:
+                env[t.id] = v
+        elif isinstance(t, ast.Tuple) and isinstance(st.value, ast.Call) and core.src(st.value.func) == "np.unique":
+            kws = {k.arg for k in st.value.keywords if isinstance(k.value, ast.Constant) and k.value.value is True}
+            base = ty(st.value.args[0]) if st.value.args else None
+            outs = [("AL", base[1] if base else "sym", True)]
+            if "return_index" in kws:
+                outs.append(("AL", "atom1st", False))
+            if "return_inverse" in kws:
+                outs.append(("atom", "AL", False))
+            if "return_counts" in kws:
+                outs.append(("AL", "count", False))
+            if base and base[0] == "atom" and len(outs) == len(t.elts):
+                for nm, o in zip(t.elts, outs):
+                    if isinstance(nm, ast.Name):
+                        env[nm.id] = o
+    rets = [r for r in ast.walk(fn) if isinstance(r, ast.Return) and isinstance(r.value, ast.Tuple) and len(r.value.elts) == 4 and core.enclosing_function(r) is fn]
+    if not rets:
+        raise AnalysisError("R17h: sort_positions_by_symbols no longer returns (counts, symbols, positions, perm)")
+    counts, syms, _, perm = (ty(x) for x in rets[0].value.elts)
+    for node, msg in problems:
+        rep.instance("R17h", rel, "sort_positions_by_symbols", core.norm(core.src(node), 70), False,
+                     msg + ": the grouping of the positions follows a different species order than the header (counts / symbols), so positions are attached to the wrong species whenever the order of first appearance is not an involution of the sorted order (three or more species)", line=node.lineno)
+    if not problems:
+        if not (counts and syms and perm):
+            rep.unknown(f"R17h: types not determined (counts={counts}, symbols={syms}, perm={perm})")
+        else:
+            rep.instance("R17h", rel, "sort_positions_by_symbols", f"header symbols indexed by {syms[0]}, counts by {counts[0]}, atoms {perm[0]}", counts[0] == syms[0] and perm[0] == "grouped:" + syms[0] and counts[1] == "count",
+                         f"the positions are grouped by {perm[0]} while the header lists the species in {syms[0]} order (counts in {counts[0]} order)", line=rets[0].lineno)
+    rep.instance("R17h", rel, "sort_positions_by_symbols", "grouping permutation comes from a stable sort", perm is None or perm[0].startswith("grouped:"), "the permutation is not a stable grouping", line=fn.lineno, nontrivial=False)
+    rep.instance("R17h", rel, "sort_positions_by_symbols", f"{len(problems)} index-domain mismatches", not problems, "see above", line=fn.lineno, nontrivial=False) if not problems else None
+
+
 def _r17g(rep):
     """Index-domain typing of LammpsForcesLoader._parse: F = file-row order, I = atom-id order."""
     rel = "phonopy/interface/lammps.py"
@@ -621,6 +752,11 @@ def selftest():
     b("pwmat branch dropped from cell filename", CALC, '    elif interface_mode == "pwmat":\n        return "atom.config"', '    elif interface_mode == "pwmat_":\n        return "atom.config"', "R17a", "pwmat")
     b("writer called with a missing argument", CALC, "qe.write_pwscf(filename, cell, pp_filenames)", "qe.write_pwscf(filename, cell)", "R17a", "write_pwscf")
     b("elk writer pairs sorted positions with original symbols", "phonopy/interface/elk.py", "        spfnames = [s + \".in\" for s in symbols]", "        spfnames = [s + \".in\" for s in symbols]\n    for i in range(len(scaled_positions)):\n        _ = (cell.symbols[i], scaled_positions[i])", "R17c", "get_elk_structure")
+    VSP = "phonopy/interface/vasp.py"
+    b("grouping key through argsort instead of rank", VSP, "    sort_keys = [reduced_symbols.index(i) for i in symbols]", "    _, first_ids, inverse = np.unique(symbols, return_index=True, return_inverse=True)\n    sort_keys = np.argsort(first_ids)[inverse].tolist()", "R17h", "sort_positions_by_symbols")
+    n("grouping key through the rank (double argsort)", VSP, "    sort_keys = [reduced_symbols.index(i) for i in symbols]", "    _, first_ids, inverse = np.unique(symbols, return_index=True, return_inverse=True)\n    sort_keys = np.argsort(np.argsort(first_ids))[inverse].tolist()")
+    n("grouping key through a lookup table", VSP, "    sort_keys = [reduced_symbols.index(i) for i in symbols]", "    rank = {s: k for k, s in enumerate(reduced_symbols)}\n    sort_keys = [rank[i] for i in symbols]")
+    b("positions grouped by sorted species order", VSP, "    sort_keys = [reduced_symbols.index(i) for i in symbols]", "    _, inverse = np.unique(symbols, return_inverse=True)\n    sort_keys = inverse.tolist()", "R17h", "grouped")
     LMP = "phonopy/interface/lammps.py"
     b("lammps forces kept in file order", LMP, "            forces[atom_id - 1] = np.array(ary[column_start:column_end], dtype=\"double\")", "            forces[i] = np.array(ary[column_start:column_end], dtype=\"double\")", "R17g", "atom-id order")
     b("lammps id completeness check dropped", LMP, "        assert all(indices_found)\n", "", "R17g", "refused")
